@@ -639,9 +639,80 @@ func (c *checker) texts(rng *rand.Rand, n int) {
 	}
 }
 
+// constructors: sets built by the public constructors and by variadic calls with empty argument
+// lists are sets like any other: in particular an empty one contains nothing, is not dynamic, and
+// is not the saved-search-result marker.
+func (c *checker) constructors(rng *rand.Rand) {
+	lists := [][]uint32{nil, {}, {1}, {4294967295}, {1, 2, 3}, {5, 1, 3, 2}, {4294967294, 4294967295}, {7, 7, 7}}
+	for i := 0; i < 40; i++ {
+		var l []uint32
+		for k := rng.Intn(6); k > 0; k-- {
+			l = append(l, randEndpoint(rng, 1)|1)
+		}
+		lists = append(lists, l)
+	}
+	for _, l := range lists {
+		ref := &refSet{}
+		var ul []imap.UID
+		for _, n := range l {
+			if n == 0 {
+				continue
+			}
+			ref.addRange(n, n)
+			ul = append(ul, imap.UID(n))
+		}
+		var sl []uint32
+		for _, u := range ul {
+			sl = append(sl, uint32(u))
+		}
+		desc := fmt.Sprintf("%v", sl)
+		sets := map[string]imap.NumSet{"SeqSetNum": imap.SeqSetNum(sl...), "UIDSetNum": imap.UIDSetNum(ul...)}
+		var s2 imap.SeqSet
+		s2.AddNum(sl...)
+		var u2 imap.UIDSet
+		u2.AddNum(ul...)
+		sets["SeqSet.AddNum"], sets["UIDSet.AddNum"] = s2, u2
+		var u3 imap.UIDSet
+		u3.AddSet(imap.UIDSetNum(ul...))
+		sets["UIDSet.AddSet(UIDSetNum)"] = u3
+		for how, ns := range sets {
+			fail := func(class, detail string) {
+				c.w.Violation(class+"@"+how, fmt.Sprintf("%s(%s): %s", how, desc, detail), map[string]interface{}{"constructor": how, "numbers": desc})
+			}
+			if ns.Dynamic() {
+				fail("dynamic", "Dynamic()=true although no '*' was inserted")
+			}
+			if u, ok := ns.(imap.UIDSet); ok && imap.IsSearchRes(u) {
+				fail("is-search-res", "a set built from numbers is reported as the saved-search-result marker '$'")
+			}
+			if str := ns.String(); len(sl) == 0 && str != "" {
+				fail("string", fmt.Sprintf("an empty set has the text form %q", str))
+			}
+			for _, q := range ref.probes() {
+				var got bool
+				switch v := ns.(type) {
+				case imap.SeqSet:
+					got = v.Contains(q)
+				case imap.UIDSet:
+					got = v.Contains(imap.UID(q))
+				}
+				if got != ref.contains(q) {
+					fail("contains", fmt.Sprintf("Contains(%d)=%v want %v", q, got, ref.contains(q)))
+					break
+				}
+			}
+			c.w.CaseStr("ctor|" + how + "|" + desc)
+		}
+	}
+	c.w.Class("constructors")
+}
+
 func body(w *hx.W) {
 	initPool()
 	c := &checker{w: w}
+	if w.Shard == 0 {
+		c.constructors(w.Rand("constructors"))
+	}
 	ops := allOps()
 	depth := w.Pick(3, 4)
 	c.check(&real3{}, &refSet{}, nil, true)
